@@ -441,6 +441,12 @@ func runWorker(bin, scratch string, sc Scenario, shard, nshards int, tier, out, 
 	if budget == 0 {
 		budget = 60
 	}
+	if tier == "quick" && budget < 150 && replay == "" {
+		// every quick scenario completes well inside its budget on an idle 16-core machine; the floor only keeps a
+		// loaded machine from cutting a search short (a cut search is reported as exhaustive:false, never as a pass
+		// of what it did not cover)
+		budget = 150
+	}
 	timeout := time.Duration(budget*1.5+120) * time.Second
 	cmd := exec.Command(bin, "-test.run", "^"+sc.Test+"$", "-test.count=1", "-test.timeout", timeout.String(), "-test.v")
 	cmd.Dir = scratch
